@@ -106,6 +106,23 @@ def f3_behaviour(sc):
     return _beh_from_states('tlc-F3', states)
 
 
+def dev_behaviours(sc):
+    """the counterexample of the modelled deviation of WriteBuffer (the donor's released tail stays linked), continued by calls that
+    make the receiving buffer grow, submit and close: on the code as it is nothing happens; the op sequence only (no expected chains)"""
+    o, _ = tlc_run(sc, 'MC_LinkBuffer_DevAppend.cfg', 'devapp', workers=8, timeout=900)
+    if 'is violated' not in o:
+        raise vlib.Inconclusive('LinkBuffer.tla: no counterexample for Dev_AppendKeepsTail:\n' + o[-600:])
+    txt = o[o.index('State 1:'):]
+    parts = re.split(r'^State \d+: [^\n]*\n', txt, flags=re.M)[1:]
+    states = [tlaval.parse_state(tlaval._filter_vars(p.split('\n\n')[0], ONLY)) for p in parts]
+    b = _beh_from_states('tlc-DevAppend', states)
+    rb = b['steps'][-1]['b']
+    b['steps'] += [{'op': 'Malloc', 'b': rb, 'n': 3, 'm': 0}, {'op': 'Flush', 'b': rb, 'n': 0, 'm': 0}, {'op': 'NewBuf', 'b': 3 if rb != 3 else 1, 'n': 2, 'm': 0},
+                   {'op': 'Malloc', 'b': rb, 'n': 3, 'm': 0}, {'op': 'Flush', 'b': rb, 'n': 0, 'm': 0}, {'op': 'Close', 'b': rb, 'n': 0, 'm': 0}]
+    b['exp'] = b['exp'][:len(states) - 2]   # the model's chains up to the call before the deviating one
+    return [b]
+
+
 def exhaustive(sc, tier):
     cfg = 'MC_LinkBuffer_quick.cfg' if tier == 'quick' else 'MC_LinkBuffer.cfg'
     out, _ = tlc_run(sc, cfg, 'main', timeout=3000)
@@ -137,7 +154,7 @@ def run_behaviours(sc, binary, behs, tag, procs=8):
         got = [json.loads(l) for l in open(outp)] if os.path.exists(outp) else []
         for r in got:
             res[r['id']] = r
-        if len(got) != len(part):
+        if len(got) != len(part) and not (got and got[-1].get('hang')):
             died.append((part[len(got)]['id'], o[-1500:]))
     return res, died
 
